@@ -360,9 +360,11 @@ class QLCParser(object):
             # get the new index
             newIdx = max(self._header.values()) + 1
 
-            # change the aliased header for each entry in alias2
+            # change the aliased header for each entry in alias2 (and for
+            # its upper-case spelling, as for the columns given on input)
             for a in self._alias2[name]:
                 self._header[a] = newIdx
+                self._header[a.upper()] = newIdx
 
             self.header[name] = self._header[name]
             # add the entry to the columns! XXX
